@@ -29,11 +29,17 @@ def rhsX (p : Nat) (B : Nat → Nat → K) (opd : Nat → K) (a : Nat) : K := su
 def cramerX (k : Nat) (G : Nat → Nat → K) (b : Nat → K) (i : Nat) : K :=
   detN k (fun r c => if c = i then b r else G r c) / detN k G
 
+/-- the sample number of pixel (r, c): `opd.ravel()` (regenerated `Gen.ravelIndex`) on the OPD side, `basis.reshape(k, -1)` (regenerated
+`Gen.reshapeIndex`) on the basis side — the fit pairs sample `s` of one with sample `s` of the other, so the two must agree -/
+def opdSample (nr nc r c : Nat) : Nat := Gen.ravelIndex nr nc r c
+def basisSample (nr nc r c : Nat) : Nat := Gen.reshapeIndex nr nc r c
+
 /-- `zernike_fit`: coefficients of the requested modes -/
 def fitX (p k : Nat) (B : Nat → Nat → K) (opd : Nat → K) : Nat → K := cramerX k (gramX p B) (rhsX p B opd)
 
-/-- `B·c`: the OPD composed from coefficients of the requested modes (the `einsum('ijk,i->jk', basis, coeffs)` of `zernike_remove`) -/
-def composeX (k : Nat) (B : Nat → Nat → K) (c : Nat → K) (s : Nat) : K := sumRange k fun a => B s a * c a
+/-- `B·c`: the OPD composed from coefficients of the requested modes — the REGENERATED contraction `Gen.removeContract` (the
+`einsum('ijk,i->jk', basis, coeffs)` of `zernike_remove`; `basis[a]` flattened row-major is column `a` of `B`) -/
+def composeX (k : Nat) (B : Nat → Nat → K) (c : Nat → K) (s : Nat) : K := Gen.removeContract sumRange k (fun a s => B s a) c s
 
 /-- `zernike_remove`: `opd - B·fit(opd)` with the same basis for the fit and the subtraction -/
 def removeX (p k : Nat) (B : Nat → Nat → K) (opd : Nat → K) (s : Nat) : K := opd s - composeX k B (fitX p k B opd) s
